@@ -546,9 +546,24 @@ def lts(d, m, sm):
             eoi=s.eoi_edge,
             guard=has_prefix_guard(s),
             root_guard=any(p.at_start for p in s.eoi_paths),
-            falls=sorted({(p.eoi, p.prefix, p.at_start) for p in s.paths if p.outcome[0] == 'action'}, key=str),
+            falls=sorted({(p.eoi, p.prefix, p.at_start, fatal_delta(p)) for p in s.paths if p.outcome[0] == 'action'}, key=str),
+            restarts=sorted({repr((model_key(p.outcome[2][1]),) + tuple(p.outcome[2][2:])) for p in s.paths if p.outcome[0] == 'action' and p.outcome[1] == 'Skip' and p.outcome[2][0] == 'goto'}),
         )
     return dict(root=m.state_key(m.root), states=out)
+
+
+def model_key(name):
+    return int(re.sub(r'\D', '', name))
+
+
+def fatal_delta(p):
+    """offset handed to _get_action relative to the offset of the dispatch read"""
+    dr = dispatch_reads(p)
+    ga = [ev for ev in p.events if ev[0] == 'get_action']
+    if not dr or not ga:
+        return None
+    r, g = dr[0][1][2], ga[0][1]
+    return (g.k - r.k) if g.base == r.base else repr(g)
 
 
 def shared_items(m):
@@ -594,6 +609,9 @@ def rule_backends(ctx, rep, pair):
                     if len(what) > 4:
                         break
             rep.viol(g8a, 'backend-mismatch:%s' % k, 'tail-call and state-machine lexers of %s are different automata: %s' % (k, '; '.join(what)), k)
+        if getattr(m1, 'ctx_reset_in_loop', False) != getattr(m2, 'ctx_reset_in_loop', False) or getattr(m2, 'ctx_reset_in_loop', False):
+            diffs += 1
+            rep.viol(g8a, 'context-register:%s' % k, 'the state-machine lexer of %s re-initialises the context (last matched leaf) on every transition, the tail-call lexer passes it on: fallback to a shorter match is lost' % k, k)
         sa, sb = shared_items(m1), shared_items(m2)
         if sa != sb:
             diffs += 1
